@@ -224,6 +224,33 @@ fn dispatch(cmd: &str, a: &[&str]) -> Result<Vec<String>, String> {
             out.extend(headers_out(&back.headers));
             Ok(out)
         }
+        "json_roundtrip" => {
+            // kind, then the value(s): i128 text / bool text / string ; "two" takes string then int
+            use crate::json::property::{JSONProperty, JSONValue};
+            use crate::core::New;
+            let kind = ustr(a[0]);
+            let mut list: Vec<(JSONProperty, JSONValue)> = vec![];
+            let mut expect: Vec<(String, String)> = vec![];
+            let mk = |name: &str, ty: &str| JSONProperty { property_name: name.to_string(), property_type: ty.to_string() };
+            if kind == "i128" || kind == "i128-const" {
+                let v: i128 = ustr(a[1]).parse().unwrap();
+                let mut jv = JSONValue::new(); jv.i128 = Some(v); list.push((mk("k", "i128"), jv)); expect.push(("k".to_string(), v.to_string()));
+            } else if kind == "bool" {
+                let v = ustr(a[1]) == "true";
+                let mut jv = JSONValue::new(); jv.bool = Some(v); list.push((mk("k", "bool"), jv)); expect.push(("k".to_string(), v.to_string()));
+            } else if kind == "string" {
+                let v = if a.len() > 1 { ustr(a[1]) } else { "".to_string() };
+                let mut jv = JSONValue::new(); jv.string = Some(v.clone()); list.push((mk("k", "String"), jv)); expect.push(("k".to_string(), v));
+            } else {
+                let v: i128 = ustr(a[1]).parse().unwrap(); let s = ustr(a[2]);
+                let mut j1 = JSONValue::new(); j1.string = Some(s.clone()); list.push((mk("a", "String"), j1)); expect.push(("a".to_string(), s));
+                let mut j2 = JSONValue::new(); j2.i128 = Some(v); list.push((mk("b", "i128"), j2)); expect.push(("b".to_string(), v.to_string()));
+            }
+            let text = crate::json::object::JSON::to_json_string(list);
+            let parsed = crate::json::object::JSON::parse_as_properties(text.clone())?;
+            let got: Vec<(String, String)> = parsed.iter().map(|(p, v)| (p.property_name.clone(), if v.string.is_some() { v.string.clone().unwrap() } else { v.to_string() })).collect();
+            Ok(vec![hex(if got == expect { b"same" } else { b"differs" }), hex(text.as_bytes()), hex(format!("{:?}", got).as_bytes())])
+        }
         "mime" => { Ok(vec![hex(crate::mime_type::MimeType::detect_mime_type(&ustr(a[0])).as_bytes())]) }
         "uri_roundtrip" => {
             let t = ustr(a[0]);
